@@ -488,6 +488,32 @@ def codeMergeLoop {α : Type} (lt : α → α → Bool) (comb : α → α → Op
         | .error e => .error e
         | .ok runs' => codeMergeLoop lt comb pick cfg lazyMem fuel runs' (n + 1)
 
+/-- `codeMergeLoop` that also records the lengths (in records) of the runs after every pass —
+what goes into the output `Offsets` log of that pass.  `codeMergeLoopT_eq` (Proofs) shows that it
+is `codeMergeLoop` plus the trace. -/
+def codeMergeLoopT {α : Type} (lt : α → α → Bool) (comb : α → α → Option α) (pick : Pick α)
+    (cfg : Cfg) (lazyMem : Nat) : Nat → List (List α) → Nat → List (List Nat) →
+      Except PlanErr (List (List α) × Nat × List (List Nat))
+  | fuel, runs, n, hist =>
+    let lazyArity := max 1 (lazyMem / cfg.bufferSize)
+    let size := dataSize cfg runs
+    if runs.length ≤ lazyArity ∨ size ≤ lazyMem then .ok (runs, n, hist)
+    else
+      match fuel with
+      | 0 => .error .fuel
+      | fuel + 1 =>
+        let reading0 := cfg.totalMemory - 2 * cfg.bufferSize
+        let reading := if size < reading0 then size else reading0
+        match codePass lt comb pick cfg reading runs with
+        | .error e => .error e
+        | .ok runs' => codeMergeLoopT lt comb pick cfg lazyMem fuel runs' (n + 1) (hist ++ [runs'.map List.length])
+
+/-- The entries of an `Offsets` log file after `Append`ing the given lengths and
+`FinishedAppending` (what the harness observes being written, 16 bytes per entry). -/
+def offsetsFile (lengths : List Nat) : List (Nat × Nat) :=
+  let o := lengths.foldl Offsets.append Offsets.reset
+  o.log ++ [o.cur]
+
 /-- Result of `Sort::Merge(lazy_memory)`. -/
 structure MergeResult (α : Type) where
   runs : List (List α)
